@@ -56,6 +56,10 @@ package storage
 //@   modifies ghost.fail, ghost.wfail
 //@   ensures  ghost.fail == (old(ghost.fail) || err != nil)
 //@   ensures  ghost.wfail == (old(ghost.wfail) || err != nil)
+// closing a READ object is not a write-side failure (static receiver type takes precedence over io.Closer)
+//@ trusted func (ReadObjectCloser) Close() (err)
+//@   modifies ghost.fail
+//@   ensures  ghost.fail == (old(ghost.fail) || err != nil)
 //@ trusted pure func (ObjectInfo) Path() (r)
 //@ trusted pure func (ObjectInfo) ExternalPath() (r)
 //@ trusted pure func (ObjectInfo) LocalPath() (r)
@@ -141,14 +145,13 @@ package storage
 //
 //@ func ReadPath(ctx, readBucket, path) (data, retErr)
 //@   property C15
-//@   modifies ghost.fail, ghost.wfail, ghost.sinkPaths, ghost.lastPutOptions
+//@   modifies ghost.fail, ghost.sinkPaths
 //@   ensures  reported: ghost.fail && !old(ghost.fail) ==> retErr != nil
-//@   ensures  write-reported: ghost.wfail && !old(ghost.wfail) ==> retErr != nil
 //@   canary ensures retErr == nil
 //
 //@ func PutPath
 //@   property C15 C09
-//@   ensures forwards-options: err == nil ==> ghost.lastPutOptions == options
+//@   ensures forwards-options: retErr == nil ==> ghost.lastPutOptions == options
 //@   modifies ghost.fail, ghost.wfail, ghost.sinkPaths, ghost.lastPutOptions
 //@   ensures  reported: ghost.fail && !old(ghost.fail) ==> retErr != nil
 //@   ensures  write-reported: ghost.wfail && !old(ghost.wfail) ==> retErr != nil
